@@ -1,5 +1,5 @@
 """C06 Compile-time evaluation agrees with run-time evaluation (DESIGN 2/C06)."""
-from units import irfold
+from units import irfold, u256
 
 LEVEL = "proof"
 TRUSTED = ["Kani 0.68 / CBMC 6.11 (+ z3 4.8.12 for mul/div/mod)", "Verus 0.2026.09.13", "syn-based extractor",
@@ -9,7 +9,7 @@ EXPLANATION = ""
 
 
 def build(tier):
-    us = irfold.build(tier) + irfold.build_ceval(tier)
+    us = irfold.build(tier) + irfold.build_ceval(tier) + u256.build(tier)
     for u in us:
         u.obligations = [o for o in u.obligations if o.prop == "C06"]
     return us
